@@ -4,7 +4,7 @@
 From Coq Require Import ZArith List Bool.
 Import ListNotations.
 Require Import PV.Model.GraphAlg PV.Model.Split PV.Proofs.GraphSpec PV.Proofs.GraphBounded PV.Proofs.SplitBounded.
-Require Import PV.Proofs.ParMisProofs PV.Proofs.ParMisTerm PV.Proofs.RsIndep PV.Proofs.RsFinal PV.Proofs.Pass2Proofs.
+Require Import PV.Proofs.ParMisProofs PV.Proofs.ParMisTerm PV.Proofs.RsIndep PV.Proofs.RsFinal PV.Proofs.Pass2Proofs PV.Proofs.RsSafe PV.Proofs.RsSomeC.
 From Coq Require Import Lia.
 
 (* first-pass Ruge-Stuben: 0/1 flags, a C point whenever there is an edge, and on symmetric
@@ -139,6 +139,23 @@ Example C13_rs_two_pass_example :
   rs_cf_splitting 4 Sp Sj Tp Tj [0; 0; 0; 0]%Z = [0; 0; 0; 1]%Z /\
   rs_pass2 4 Sp Sj (rs_cf_splitting 4 Sp Sj Tp Tj [0; 0; 0; 0]%Z) = [0; 1; 0; 1]%Z.
 Proof. split; vm_compute; reflexivity. Qed.
+
+(* one- and two-pass Ruge-Stuben, UNBOUNDED, EVERY pattern: on any pair of structurally valid CSR patterns S, T (symmetric
+   or not; T is what the caller passes as transpose) with nonnegative influence, as soon as some vertex k has an
+   off-diagonal entry in its row of T (somebody else strongly depends on k) the first pass marks a coarse point, and the
+   second pass never demotes a coarse point of the first *)
+Theorem C13_rs_marks_a_coarse_point_on_every_pattern : forall (N : nat) (Sp Sj Tp Tj infl : list Z),
+  valid_csr N Sp Sj -> valid_csr N Tp Tj -> (N <= length infl)%nat ->
+  (forall i, (0 <= i < Z.of_nat N)%Z -> (0 <= get infl i)%Z) ->
+  forall k j, (0 <= k < Z.of_nat N)%Z -> In j (nbrs Tp Tj k) -> j <> k ->
+  (exists c, (0 <= c < Z.of_nat N)%Z /\ get (rs_cf_splitting (Z.of_nat N) Sp Sj Tp Tj infl) c = 1%Z) /\
+  (exists c, (0 <= c < Z.of_nat N)%Z /\ get (rs_pass2 (Z.of_nat N) Sp Sj (rs_cf_splitting (Z.of_nat N) Sp Sj Tp Tj infl)) c = 1%Z).
+Proof.
+  intros N Sp Sj Tp Tj infl VS VT Li Hi k j Hk Hj Hne. split.
+  - exact (rs_first_pass_some_C N Sp Sj Tp Tj infl VS VT Li Hi k j Hk Hj Hne).
+  - exact (rs_two_pass_some_C N Sp Sj Tp Tj infl VS VT Li Hi k j Hk Hj Hne).
+Qed.
+Print Assumptions C13_rs_marks_a_coarse_point_on_every_pattern.
 
 Example C13_enumeration_size : length all_patterns = 133%nat.
 Proof. exact all_patterns_count. Qed.
